@@ -59,6 +59,7 @@ func runC02(c *kit.Ctx) {
 	// ---- R2 ---------------------------------------------------------------
 	c.StartRule("R2", "id on the wire = id registered for the same call", 2)
 	sendPathSharesNoMemory(c)
+	buffersAreFreedAfterTheWrite(c)
 	{
 		rpcParam := paramOfType(send, "/hrpc.Call", 0)
 		regs := kit.Calls(send, kit.M("region", "*client", "registerRPC"))
@@ -163,6 +164,8 @@ func runC02(c *kit.Ctx) {
 
 	// ---- R4 ---------------------------------------------------------------
 	c.StartRule("R4", "multi action index: writer and reader agree, m.calls is never reordered", 6)
+	// the actions (and their indices) stay what this toProto wrote until send has marshalled them
+	multiBuildsItsRequestInFreshMemory(c)
 	unsentCallsAreCleared(c)
 	responseIndicesAreUnique(c)
 	{
@@ -258,6 +261,16 @@ func runC02(c *kit.Ctx) {
 						if _, isP := bo.X.(*ssa.Parameter); isP {
 							if k, ok := kit.ConstInt(bo.Y); ok {
 								k2 = k
+							}
+							// reached only where the index is known not to be 0 (whatever form the guard has)
+							for _, f := range kit.FactsAt(x.Block()) {
+								cmp, ok := kit.CanonCmp(f.Cond, f.Pol)
+								if !ok || cmp.X != bo.X {
+									continue
+								}
+								if k, ok := kit.ConstInt(cmp.Y); ok && (cmp.Op == token.NEQ && k == 0 || cmp.Op == token.GTR && k == 0 || cmp.Op == token.GEQ && k == 1) {
+									rejects0 = true
+								}
 							}
 						}
 					}
@@ -460,6 +473,7 @@ func runC02(c *kit.Ctx) {
 	}
 
 	// ---- R7 ---------------------------------------------------------------
+	embed(c, "R9", "the frames of two requests are never interleaved on the wire: what the server answers under a call id is the answer to the request that was sent under it (the request-side rules of C05, run as one rule here)", 100, runC05)
 	embed(c, "R7", "batch results are stored in the slot of the call they belong to (the positional rules of C07, run as one rule here)", 20, runC07)
 	embed(c, "R8", "a call handed to a connection is completed exactly once, by whoever took it out of the sent table, and the pending batch object is never shared (the rules of C03, run as one rule here)", 30, runC03)
 
@@ -732,8 +746,15 @@ func callIDDiscipline(c *kit.Ctx) {
 			}
 		})
 		kit.Instrs(unreg, func(in ssa.Instruction) {
-			if r, ok := in.(*ssa.Return); ok && looked != nil && kit.Root(kit.Res(r, 0)) == looked {
-				retOK = true
+			if r, ok := in.(*ssa.Return); ok && looked != nil {
+				rv := kit.Root(kit.Res(r, 0))
+				if rv == looked {
+					retOK = true
+				}
+				// rpc, ok := c.sent[id]
+				if ex, isEx := rv.(*ssa.Extract); isEx && ex.Tuple == looked && ex.Index == 0 {
+					retOK = true
+				}
 			}
 		})
 		c.Check(lookupOK && deleteOK && retOK, unreg, "lookup-delete-same-id", unreg.Pos(), "returns sent[id] and deletes that id", "unregisterRPC does not return and delete the entry of the id it was given")
